@@ -167,11 +167,35 @@ def run(run, model, proof):
     n = 20000 if run.tier == "thorough" else 1200
     for i in range(n):
         one(run, model, rng)
+    # the shipped I/O-drawer plug-in (udparsers.m2c00) against Model/M2c00.v with the tables regenerated from /repo, and end to
+    # end inside a PEL (creator M, component 0x2C00)
+    from props import c18m, c04
+    c18m.check_m2c00(run, model, rng, 3000 if run.tier == "thorough" else 300)
+    for i in range(400 if run.tier == "thorough" else 60):
+        sub = rng.choice([72, 73, 84, 72, 73, 84, 1, rng.randrange(256)])
+        ver = rng.choice([1, 2, 1, 2, 0, 3, rng.randrange(256)])
+        body = bytes(rng.choice([0, 0, 1, 0xDE, 0x8A, rng.randrange(256)]) for _ in range(rng.choice([1, 2, 8, 16, 38, 80])))
+        data = c04.mini_pel(b"M", [(b"UD", ver, sub, 0x2C00, body)])
+        impl = pelgen.impl_decode(data, True)
+        mo = pelgen.model_outcome(model.call("decode", b"\1", data))
+        run.evaluations += 1
+        run.count("m2c00-in-pel")
+        if mo[0] == "unsupported":
+            run.unsupported += 1
+        elif mo[0] != impl["kind"] or (mo[0] == "ok" and pelgen.first_diff(mo[2], impl["doc"])):
+            run.disagreements_checked += 1
+            run.violation("model:m2c00-in-pel", "model and decoder disagree on a PEL with an I/O-drawer user-data section: %s vs %s %s"
+                          % (mo[0], impl["kind"], pelgen.first_diff(mo[2], impl["doc"]) if mo[0] == "ok" == impl["kind"] else ""),
+                          dict(kind="M", fn="m2c00-pel", input_hex=data.hex(), correspondence="Model.Pel.decode (env0 with m2c00_shipped) vs parsePEL"),
+                          no_input=True)
     run.sample(dict(creator="B", section="UD comp 0x1234", module="udparsers.b1234.b1234", behaviours="7=echo 0=text 1=None 2=raise 3=ImportError 4=non-str 5='' 6=import fails 8/9=conditional"))
 
 
 def replay(run, model, path):
     r = json.load(open(path))
+    if r.get("fn") == "m2c00":
+        from props import c18m
+        return c18m.replay_m2c00(run, model, r)
     if r.get("fn") != "fixture-decode":
         return globals()["run"](run, model, dict(ok=True))
     data = bytes.fromhex(r["input_hex"])
